@@ -33,7 +33,7 @@ def run(sid, prop):
         tag = "-" + hashlib.sha256(d.encode()).hexdigest()[:8]
         import glob
         for x in glob.glob(os.path.join(V, ".build", "*" + tag)) + glob.glob(os.path.join(V, ".build", "*" + tag + "-*")):
-            shutil.rmtree(x, ignore_errors=True)
+            (os.remove(x) if os.path.isfile(x) else shutil.rmtree(x, ignore_errors=True))
         shutil.rmtree(d, ignore_errors=True)
 
 
